@@ -174,7 +174,8 @@ def _run(args):
     ov, desc = r
     try:
         repo = Repo(root, overrides=ov)
-        ck = run_check(prop, "quick", repo=repo, write=False, quiet=True)
+        # the shared state-hygiene rule RS is left out of the sweep: the operators add no state, and RS costs ~4 s per mutant
+        ck = run_check(prop, "quick", repo=repo, write=False, quiet=True, hygiene=False)
         new = [o for o in ck.obligations if not o.ok and o.key() not in base_fail]
         status = "killed" if new else ("analysis-error" if ck.errors else "survived")
         rules = sorted({o.rule.split(".")[-1] for o in new})
@@ -189,7 +190,7 @@ def sweep(prop: str, anchors: List[Tuple[str, str]], root: str = None, jobs: int
 
     root = root or REPO_ROOT
     t0 = time.time()
-    base = run_check(prop, "quick", write=False, quiet=True)
+    base = run_check(prop, "quick", write=False, quiet=True, hygiene=False)
     base_fail = {o.key() for o in base.obligations if not o.ok}
     mutants = enumerate_mutants(root, anchors)
     if limit:
